@@ -883,6 +883,15 @@ def run_hammer_stream(prop, stream, tier, seed, workdir, scale=1):
                         verdicts.append({"kind": "MON", "id": pid, "episode": 0, "step": 0, "raw": rp,
                                          "text": f"MON {pid} :: after parallel memory-aware stores into {f[2]} a stored key has no queue slot (or a slot is duplicated) at {incons} quiescent points: it can never be evicted and keeps the cache over its bound"})
                 continue
+            if f[0] == "HR":
+                reps_, bad = int(f[3]), int(f[4])
+                acc["steps"] += reps_
+                acc["events"]["concurrent-resets"] = acc["events"].get("concurrent-resets", 0) + reps_
+                acc["nontrivial"].add(hash((r, "HR", f[1])))
+                if bad:
+                    verdicts.append({"kind": "MON", "id": "C15", "episode": 0, "step": 0, "raw": [f"# hammer {seed + r} {threads} {rounds}", line],
+                                     "text": f"MON C15 :: after concurrent stats_registry::reset({f[2]}) calls with no lookup in between the counters read hits+misses = {f[5]} instead of 0+0 ({bad} of {reps_} rounds; free-running threads)"})
+                continue
             if f[0] == "HS":
                 calls, execs = int(f[3]), int(f[4])
                 acc["steps"] += calls
